@@ -69,8 +69,11 @@ def make(pid, props, targets, diffs, trusted, assumptions=(), extra_run=None, ta
     def search(ctx, res, corr_new):
         """A proof or the correspondence broke: look harder for an input on which the real code
         violates the property (direct oracles only), with fresh seeds and more cases."""
-        for k in range(1, 4):
+        for k in range(1, 1 + getattr(ctx, "search_rounds", 3)):
             for modname, nq, nt, only in diffs:
+                if getattr(ctx, "search_deadline", None) and time.time() > ctx.search_deadline:
+                    res.notes.append("escalated search stopped at its time budget before " + modname)
+                    return
                 mod = importlib.import_module(modname)
                 try:
                     r = mod.run(seed=ctx.seed * 1000 + 7919 * k, n=max(nq, 400) * 3, driver=common.DRIVER, thorough=False)
